@@ -247,6 +247,25 @@ fn c18_text(runs: &[(usize, usize)], long_line: Option<(usize, usize)>, final_ne
         counts.extend((lines.len() as u64 + 3)..=(size + 3));
         counts.extend([2 * size + 1, 1000, 65_536]);
     }
+    // a handle that has been read from before (someone sniffed the first line, or read it all): the
+    // chunks are those of the file, not of what is left of the handle
+    for n in [2u64, 3, lines.len() as u64] {
+        let fresh = guarded(|| split_file_into_chunks_by_size(File::open(&path).unwrap(), n)).ok().and_then(|r| r.ok());
+        for adv in [1u64, 7, size / 2, size] {
+            out.count("chunkings_of_a_used_handle", 1);
+            let got = guarded(|| {
+                use std::io::{Seek, SeekFrom};
+                let mut f = File::open(&path).unwrap();
+                f.seek(SeekFrom::Start(adv.min(size))).unwrap();
+                split_file_into_chunks_by_size(f, n)
+            })
+            .ok()
+            .and_then(|r| r.ok());
+            if got != fresh {
+                out.fail("chunks_depend_on_the_handle_position", &tags, format!("chunks={} handle advanced by {}: {:?}, fresh handle {:?}", n, adv, got, fresh));
+            }
+        }
+    }
     for n in counts {
         out.count("chunkings", 1);
         match guarded(|| split_file_into_chunks_by_size(File::open(&path).unwrap(), n)) {
